@@ -5,7 +5,9 @@ package main
 
 import (
 	"fmt"
+	"math"
 	"os"
+	"regexp"
 	"strconv"
 	"strings"
 	"time"
@@ -409,6 +411,9 @@ func c08TextX(r *h.Result, rng *h.Rng, n int, g mgen) error {
 			continue
 		}
 		_ = script
+		if err := c08xOracle(r, rng, query, c, sqlText); err != nil {
+			return err
+		}
 		ops = append(ops, "c08planx "+c.ser()+" "+ser)
 		impl = append(impl, h.Hex([]byte(sqlText)))
 		cases = append(cases, map[string]any{"query": query, "ctx": c})
@@ -679,6 +684,264 @@ func c08SemX(r *h.Result, rng *h.Rng, n int) error {
 		default:
 			return fmt.Errorf("c08semx: model answered %q for %v", a, ops[i])
 		}
+	}
+	// the stream has to exercise every class plan_metric_correct_ext covers (fail closed when the generator stops doing so)
+	for _, need := range []string{
+		"semx:class:proved-ext:lra+stages:range", "semx:class:proved-ext:lra+stages:agg", "semx:class:proved-ext:lra+stages:topk(agg)",
+		"semx:class:proved-ext:unwrap+stages:range", "semx:class:proved-ext:unwrap+stages:agg",
+		"semx:class:proved-ext:quantile:range", "semx:class:proved-ext:quantile+stages:range", "semx:class:proved-ext:quantile+stages:topk(range)",
+		"semx:proved:json", "semx:proved:regexp", "semx:proved:drop", "semx:proved:stages>=3", "semx:proved:step>range",
+		"semx:proved:non-empty-result",
+	} {
+		if r.Distribution[need] == 0 {
+			return fmt.Errorf("c08semx: no case of %s among %d (the stream no longer exercises a class plan_metric_correct_ext covers)", need, len(ans))
+		}
+	}
+	return nil
+}
+
+// ---------------------------------------------------------------- oracles on the real planner (no model involved)
+
+var c08xPipelinePlanners = map[string]bool{"LineFilterPlanner": true, "LabelFilterPlanner": true, "ParserPlanner": true,
+	"PlannerDrop": true, "UnwrapPlanner": true}
+var c08xMatrixPlanners = map[string]bool{"LRAPlanner": true, "UnwrapFunctionPlanner": true, "QuantilePlanner": true,
+	"ComparisonPlanner": true, "ByWithoutPlanner": true, "AggOpPlanner": true, "TopKPlanner": true}
+
+var c08xQuantileRe = regexp.MustCompile(`^quantile\(([0-9.]+)\)\(value\)$`)
+
+// c08xOracle: (1) chain — every pipeline stage written in the query (read off the real AST) has its planner in the chain
+// clickhouse_planner.Plan returns, in pipeline order (label filters before the first parser / drop: on the fingerprint side),
+// and the matrix planners are those written, in the order of the text, quantile_over_time with the written φ;
+// (2) text — the range stage of the real SQL: bucket column, GROUP BY keys, the value expression interpreted on random groups
+// against the definition of the written function; `quantile(φ)(value)` carries the written φ
+func c08xOracle(r *h.Result, rng *h.Rng, query string, c mctx, sqlText string) error {
+	script, err := logql_parser.Parse(query)
+	if err != nil {
+		return nil
+	}
+	ra, agg, top := c08xRangeOf(script)
+	rep := func(extra map[string]any) map[string]any {
+		m := map[string]any{"query": query, "ctx": c, "sql": sqlText}
+		for k, v := range extra {
+			m[k] = v
+		}
+		return m
+	}
+	// ---- (1) the planner chain
+	p, err := clickhouse_planner.Plan(script, true)
+	if err != nil {
+		return nil // reported by the text stream
+	}
+	names, fp, err := chainOf(p)
+	if err != nil {
+		return fmt.Errorf("chain of %q: %w", query, err)
+	}
+	nLabel, err := fpChainOf(fp)
+	if err != nil {
+		return fmt.Errorf("fingerprint chain of %q: %w", query, err)
+	}
+	var wantPipe []string
+	wantSimple, joined, unwrapped := 0, false, false
+	for _, st := range ra.sel.Pipelines {
+		switch {
+		case st.Parser != nil:
+			joined = true
+			wantPipe = append(wantPipe, "ParserPlanner("+st.Parser.Fn+")")
+		case st.Drop != nil:
+			joined = true
+			var ls []string
+			for _, dp := range st.Drop.Params {
+				ls = append(ls, dp.Label.Name)
+			}
+			wantPipe = append(wantPipe, "PlannerDrop("+strings.Join(ls, ",")+")")
+		case st.LineFilter != nil:
+			wantPipe = append(wantPipe, "LineFilterPlanner("+st.LineFilter.Fn+")")
+		case st.LabelFilter != nil && !joined:
+			wantSimple++
+		case st.LabelFilter != nil:
+			wantPipe = append(wantPipe, "LabelFilterPlanner")
+		case st.Unwrap != nil:
+			unwrapped = true
+			wantPipe = append(wantPipe, "UnwrapPlanner("+st.Unwrap.Label.Name+")")
+		}
+	}
+	var wantMatrix []string
+	cmp := func(cm *logql_parser.Comparison) {
+		if cm != nil {
+			wantMatrix = append(wantMatrix, "ComparisonPlanner("+cm.Fn+")")
+		}
+	}
+	switch {
+	case ra.quantile:
+		if g := groupingName(ra.bp, ra.bs); g != "" {
+			wantMatrix = append(wantMatrix, g)
+		}
+		phi, _ := strconv.ParseFloat(ra.param, 64)
+		wantMatrix = append(wantMatrix, "QuantilePlanner("+strconv.FormatFloat(phi, 'g', -1, 64)+")")
+	case unwrapped:
+		if g := groupingName(ra.bp, ra.bs); g != "" {
+			wantMatrix = append(wantMatrix, g)
+		}
+		wantMatrix = append(wantMatrix, "UnwrapFunctionPlanner("+ra.fn+")")
+	default:
+		wantMatrix = append(wantMatrix, "LRAPlanner("+ra.fn+")")
+	}
+	cmp(ra.cmp)
+	if agg != nil {
+		if g := groupingName(agg.ByOrWithoutPrefix, agg.ByOrWithoutSuffix); g != "" {
+			wantMatrix = append(wantMatrix, g)
+		} else {
+			wantMatrix = append(wantMatrix, "ByWithoutPlanner(true:)")
+		}
+		wantMatrix = append(wantMatrix, "AggOpPlanner("+agg.Fn+")")
+		cmp(agg.Comparison)
+	}
+	if top != nil {
+		k, _ := strconv.Atoi(top.Param)
+		wantMatrix = append(wantMatrix, fmt.Sprintf("TopKPlanner(%v,%d)", top.Fn == "topk", k))
+		cmp(top.Comparison)
+	}
+	var gotPipe, gotMatrix []string
+	for _, nm := range names {
+		switch {
+		case c08xPipelinePlanners[baseName(nm)]:
+			gotPipe = append(gotPipe, nm)
+		case c08xMatrixPlanners[baseName(nm)]:
+			gotMatrix = append(gotMatrix, nm)
+		}
+	}
+	chainRep := rep(map[string]any{"planned": names, "label_filters_planned": nLabel})
+	if strings.Join(gotPipe, " ") != strings.Join(wantPipe, " ") {
+		r.Violate("C08/pipeline-stage-not-planned", fmt.Sprintf("pipeline stages written: %v, planned: %v", wantPipe, gotPipe), chainRep)
+	}
+	if nLabel != wantSimple {
+		r.Violate("C08/label-filter-not-planned", fmt.Sprintf("%d label filters written before the first parser / drop, %d planned on the fingerprint side", wantSimple, nLabel), chainRep)
+	}
+	if strings.Join(gotMatrix, " ") != strings.Join(wantMatrix, " ") {
+		r.Violate("C08/matrix-stages-not-planned-in-query-order", fmt.Sprintf("written: %v, planned: %v", wantMatrix, gotMatrix), chainRep)
+	}
+	// ---- (2) the range stage of the SQL text
+	ctes, final, err := splitCTEs(sqlText)
+	if err != nil {
+		return err
+	}
+	ctes = append(ctes, cte{"", final})
+	d := scriptDuration(script)
+	trueSecs := float64(d) / 1e9
+	seenRange := false
+	for _, ct := range ctes {
+		sp, err := parseSelect(ct.body)
+		if err != nil {
+			return fmt.Errorf("x stage oracle: %w in %s", err, sqlText)
+		}
+		checkBucket := func(src, what string) {
+			e, ok := sp.cols["timestamp_ns"]
+			if !ok {
+				r.Violate("C08/stage-without-bucket-column", what+" has no timestamp_ns column", rep(nil))
+				return
+			}
+			for k := 0; k < 3; k++ {
+				ts := int64(rng.Intn(1<<31)) * int64(1+rng.Intn(1<<20))
+				got, err := evalText(e, srow{src: float64(ts)}, nil)
+				want := float64(ts / d * d)
+				if err != nil || got != want {
+					r.Violate("C08/bucket-start-wrong:"+what, fmt.Sprintf("%s: `%s` gives %v for ts=%d, the window of width %d containing it starts at %v (%v)", what, e, got, ts, d, want, err),
+						rep(map[string]any{"expr": e, "ts": ts, "width": d}))
+					return
+				}
+			}
+		}
+		switch {
+		case strings.HasPrefix(sp.from, "agg_a as time_series"):
+			seenRange = true
+			checkBucket("time_series.timestamp_ns", "range stage")
+			if !sameSet(sp.groupBy, []string{"fingerprint", "timestamp_ns"}) {
+				r.Violate("C08/range-stage-group-by", fmt.Sprintf("range stage groups by %v", sp.groupBy), rep(nil))
+			}
+			var lines []string
+			var grp []srow
+			for k, m := 0, rng.Range(1, 6); k < m; k++ {
+				l := strings.Repeat("x", rng.Intn(9))
+				lines = append(lines, l)
+				grp = append(grp, srow{"_string": l, "fingerprint": 1.0})
+			}
+			got, err := evalText(sp.cols["value"], nil, grp)
+			want := defRange(ra.fn, trueSecs, lines)
+			if err != nil || !near(got, want) {
+				r.Violate("C08/range-value-differs:"+ra.fn, fmt.Sprintf("%s over lines %q: the SQL value `%s` gives %v, the definition %v (%v)", ra.fn, lines, sp.cols["value"], got, want, err),
+					rep(map[string]any{"expr": sp.cols["value"], "lines": lines, "got": got, "want": want}))
+			}
+			if sp.cols["labels"] != "any(labels)" {
+				r.Violate("C08/range-stage-loses-labels", "the range stage over a selector with label-rewriting stages does not carry the labels: "+sp.cols["labels"], rep(nil))
+			}
+		case strings.HasPrefix(sp.from, "unwrap_1"):
+			seenRange = true
+			checkBucket("timestamp_ns", "unwrap range stage")
+			if !sameSet(sp.groupBy, []string{"fingerprint", "timestamp_ns"}) {
+				r.Violate("C08/range-stage-group-by", fmt.Sprintf("unwrap range stage groups by %v", sp.groupBy), rep(nil))
+			}
+			var grp []srow
+			var ts, vs []float64
+			for k, m := 0, rng.Range(1, 6); k < m; k++ {
+				t, v := float64(1000+7*k+rng.Intn(5)), float64(rng.Intn(21)-10)/2
+				ts, vs = append(ts, t), append(vs, v)
+				grp = append(grp, srow{"unwrap_1.value": v, "unwrap_1.timestamp_ns": t})
+			}
+			got, err := evalText(sp.cols["value"], nil, grp)
+			want := defUnwrap(ra.fn, trueSecs, ts, vs)
+			if err != nil || !near(got, want) {
+				r.Violate("C08/range-value-differs:unwrap:"+ra.fn, fmt.Sprintf("%s over (ts, value) %v %v: the SQL value `%s` gives %v, the definition %v (%v)", ra.fn, ts, vs, sp.cols["value"], got, want, err),
+					rep(map[string]any{"expr": sp.cols["value"], "ts": ts, "values": vs, "got": got, "want": want}))
+			}
+		case strings.HasPrefix(sp.from, "quant_a"):
+			seenRange = true
+			checkBucket("quant_a.timestamp_ns", "quantile stage")
+			if !sameSet(sp.groupBy, []string{"fingerprint", "timestamp_ns"}) {
+				r.Violate("C08/range-stage-group-by", fmt.Sprintf("quantile stage groups by %v", sp.groupBy), rep(nil))
+			}
+			m := c08xQuantileRe.FindStringSubmatch(sp.cols["value"])
+			want, _ := strconv.ParseFloat(ra.param, 64)
+			if !ra.quantile || m == nil {
+				r.Violate("C08/quantile-value-shape", "the quantile stage's value column is `"+sp.cols["value"]+"`", rep(nil))
+			} else if got, _ := strconv.ParseFloat(m[1], 64); math.Abs(got-want) > 5e-7 {
+				r.Violate("C08/quantile-parameter-differs", fmt.Sprintf("quantile_over_time(%s, …): the SQL computes `%s`", ra.param, sp.cols["value"]),
+					rep(map[string]any{"written": ra.param, "sql": sp.cols["value"]}))
+			}
+			if sp.cols["fingerprint"] != "quant_a.fingerprint" || sp.cols["labels"] != "any(quant_a.labels)" {
+				r.Violate("C08/quantile-series-identity", fmt.Sprintf("the quantile stage's series columns are fingerprint=`%s`, labels=`%s`", sp.cols["fingerprint"], sp.cols["labels"]), rep(nil))
+			}
+		}
+		// the samples scan is confined to the window
+		if strings.Contains(sp.from, " as samples") && sp.prew != "" {
+			lo, hi := fmt.Sprint(c.From), fmt.Sprint(c.To)
+			if !strings.Contains(sp.prew, "((samples.timestamp_ns) >= ("+lo+"))") || !strings.Contains(sp.prew, "((samples.timestamp_ns) < ("+hi+"))") {
+				r.Violate("C08/samples-window", "the samples scan is not confined to [from, to): "+sp.prew, rep(nil))
+			}
+		}
+	}
+	if !seenRange {
+		r.Violate("C08/range-stage-missing", "no SELECT of the statement computes the range function", rep(nil))
+	}
+	// the pipeline stages leave their mark in the text as well
+	nJSON, nRe, nDrop := 0, 0, 0
+	for _, st := range ra.sel.Pipelines {
+		switch {
+		case st.Parser != nil && st.Parser.Fn == "json":
+			nJSON++
+		case st.Parser != nil && st.Parser.Fn == "regexp":
+			nRe++
+		case st.Drop != nil:
+			nDrop++
+		}
+	}
+	if got := strings.Count(sqlText, "mapFromArrays(["); got != nJSON {
+		r.Violate("C08/pipeline-stage-not-planned", fmt.Sprintf("%d `| json` stages written, %d extraction maps in the SQL", nJSON, got), rep(nil))
+	}
+	if got := strings.Count(sqlText, "extractAllGroupsHorizontal("); got != nRe {
+		r.Violate("C08/pipeline-stage-not-planned", fmt.Sprintf("%d `| regexp` stages written, %d in the SQL", nRe, got), rep(nil))
+	}
+	if got := strings.Count(sqlText, "mapFilter((k,v) -> k!=") + strings.Count(sqlText, "mapFilter((k,v) -> (k, v)!="); got != nDrop {
+		r.Violate("C08/pipeline-stage-not-planned", fmt.Sprintf("%d `| drop` stages written, %d in the SQL", nDrop, got), rep(nil))
 	}
 	return nil
 }
